@@ -130,12 +130,59 @@ impl Pending {
     }
 }
 
+/// Operations issued *after* the connection task has returned: each must resolve at once (Closed), none may wait.
+pub async fn later(mux: &Arc<Mux>, binds_enabled: bool) -> Vec<Outcome> {
+    let mut out: Vec<Outcome> = Vec::new();
+    let t = Duration::from_millis(5);
+    out.push(("later-open", tokio::time::timeout(t, mux.new_stream_channel(b"later-open", 1)).await.ok().map(|r| match r {
+        Ok(_) => "ok".to_string(),
+        Err(e) => format!("err:{}", wl::err_name(&e)),
+    })));
+    out.push(("later-request_bind", tokio::time::timeout(t, mux.request_bind(b"later-bind", 2, BindType::Stream)).await.ok().map(|r| match r {
+        Ok(b) => format!("ok:{b}"),
+        Err(e) => format!("err:{}", wl::err_name(&e)),
+    })));
+    out.push(("later-get_datagram", tokio::time::timeout(t, async {
+        // whatever had been queued may still be handed out; then Closed
+        loop {
+            match mux.get_datagram().await {
+                Ok(_) => {}
+                Err(e) => return format!("err:{}", wl::err_name(&e)),
+            }
+        }
+    }).await.ok()));
+    out.push(("later-accept", tokio::time::timeout(t, async {
+        loop {
+            match mux.accept_stream_channel().await {
+                Ok(_) => {}
+                Err(e) => return format!("err:{}", wl::err_name(&e)),
+            }
+        }
+    }).await.ok()));
+    if binds_enabled {
+        out.push(("later-next_bind_request", tokio::time::timeout(t, async {
+            loop {
+                match mux.next_bind_request().await {
+                    Ok(r) => std::mem::forget(r),
+                    Err(e) => return format!("err:{}", wl::err_name(&e)),
+                }
+            }
+        }).await.ok()));
+    }
+    let d = penguin_mux::Datagram { flow_id: 0x1A7E, target_host: "later".into(), target_port: 1, data: vec![1u8, 2, 3].into() };
+    out.push(("later-send_datagram", tokio::time::timeout(t, mux.send_datagram(d)).await.ok().map(|r| match r {
+        Ok(()) => "ok".to_string(),
+        Err(e) => format!("err:{}", wl::err_name(&e)),
+    })));
+    out
+}
+
 /// Check outcomes against appendix A.3. Returns (signature, detail) per problem.
 pub fn judge(outcomes: &[Outcome], cause: &str, peer_may_have_answered: bool) -> Vec<(String, String)> {
     let mut bad = Vec::new();
     for (name, res) in outcomes {
         match res {
-            None => bad.push((format!("still-pending|{name}|{cause}"), format!("after the connection ended ({cause}) the pending `{name}` had not resolved when the system went idle"))),
+            None => bad.push((format!("still-pending|{name}|{cause}"), format!("after the connection ended ({cause}) the {} `{name}` had not resolved when the system went idle", if name.starts_with("later-") { "operation issued afterwards" } else { "pending" }))),
             Some(r) => {
                 let ok = match *name {
                     "read" => r.starts_with("eof-after-"),
@@ -145,6 +192,8 @@ pub fn judge(outcomes: &[Outcome], cause: &str, peer_may_have_answered: bool) ->
                     "get_datagram" => r.starts_with("err:Closed"),
                     "request_bind" => r == "err:Closed" || r == "ok:false" || (peer_may_have_answered && r == "ok:true"),
                     "next_bind_request" => r.starts_with("err:Closed"),
+                    "later-open" | "later-get_datagram" | "later-accept" | "later-next_bind_request" | "later-send_datagram" => r == "err:Closed",
+                    "later-request_bind" => r == "err:Closed" || r == "ok:false",
                     _ => true,
                 };
                 if !ok {
